@@ -809,6 +809,10 @@ func (it *Interp) beginPath() {
 	it.pool = nil
 	it.timeFmtN = 0
 	it.egQueue = map[*Object][]*Func{}
+	it.md5Apps = nil
+	it.md5Acc = nil
+	it.atoiMap = nil
+	it.fmtTimeVals = nil
 }
 
 func (it *Interp) runPath(fn *ssa.Function) {
